@@ -6,6 +6,7 @@ LOOPS = ["select", "asyncio", "tornado", "twisted", "trio", "zmq"]
 def make_loop(urwid, name):
     """-> (event loop, closer)"""
     aio = None
+    extra = []
     if name == "select":
         el = urwid.SelectEventLoop()
     elif name == "asyncio":
@@ -18,13 +19,26 @@ def make_loop(urwid, name):
 
         from tornado.ioloop import IOLoop
 
-        aio = asyncio.new_event_loop()
-        asyncio.set_event_loop(aio)
-        el = urwid.TornadoEventLoop(IOLoop())
+        io = IOLoop(make_current=False)   # owns a fresh asyncio loop
+        el = urwid.TornadoEventLoop(io)
+        extra.append(lambda: io.close(all_fds=True))
     elif name == "twisted":
         from twisted.internet.selectreactor import SelectReactor
 
-        el = urwid.TwistedEventLoop(reactor=SelectReactor())
+        reactor = SelectReactor()
+        el = urwid.TwistedEventLoop(reactor=reactor)
+
+        def close_reactor():
+            import os
+
+            reactor.removeAll()
+            for fd in (reactor.waker.i, reactor.waker.o):
+                try:
+                    os.close(fd)
+                except OSError:
+                    pass
+
+        extra.append(close_reactor)
     elif name == "trio":
         el = urwid.TrioEventLoop()
     elif name == "zmq":
@@ -33,6 +47,11 @@ def make_loop(urwid, name):
         raise KeyError(name)
 
     def close():
+        for fn in extra:
+            try:
+                fn()
+            except Exception:  # noqa: BLE001
+                pass
         if aio is not None:
             try:
                 aio.close()
